@@ -1,1 +1,1 @@
-
+import CbGen.RangeTable
